@@ -411,7 +411,9 @@ def applicable(fn, bits, cfgname):
     return True
 
 
-GROUPS = ('explog', 'trig', 'inv', 'cont')
+GROUPS = ('explog', 'trig', 'inv', 'cont', 'dir')
+# small-argument odd kernels compared with their Taylor series: function -> precisions that have such a kernel
+DIRF = {'sinh': (32, 64), 'tanh': (32, 64), 'asinh': (32,), 'erf': (32,)}
 BINADES = [True]      # the binade-boundary clause (every binade of the normal range) -- quick tier: first configuration only
 # tier continuity: function -> the property's bound in ulp (float column / double column; None = no frozen bound known here)
 CONT = {'exp': (4.5, 4.5), 'exp2': (4.5, 4.5), 'exp10': (4.5, 4.5), 'expm1': (4.5, 4.5), 'log': (4.5, 4.5), 'log2': (4.5, 4.5), 'log10': (4.5, 4.5), 'log1p': (4.5, 4.5),
@@ -451,6 +453,33 @@ def analyse(job):
         if bad:
             summary['bad_boundary'] = bad[0]
             out['res'].append((key, 'bad', summary))
+        else:
+            out['res'].append((key, 'ok', summary))
+    from . import c10dir
+    for fn in (sorted(DIRF) if group == 'dir' else ()):
+        if bits not in DIRF[fn]:
+            continue
+        key = 'kernel|%s|%s|%s' % (fn, tn, cfgname)
+        try:
+            dr = c10dir.analyse_dir(mod, 'm_%s_%s' % (fn, tn), fn, bits, THR)
+        except (Mismatch, NotReal) as e:
+            out['res'].append((key, 'mismatch', {'why': str(e)[:300]}))
+            continue
+        except (ValueError, KeyError, IndexError, ZeroDivisionError, RecursionError, TypeError, AttributeError) as e:
+            out['res'].append((key, 'mismatch', {'why': 'analysis error %r' % (e,)}))
+            continue
+        cases = dr['cases']
+        bad = [c_ for c_ in cases if c_['verdict'] == 'bad']
+        okc = [c_ for c_ in cases if c_['verdict'] == 'ok']
+        summary = {'cases': len(cases), 'ulp': max([c_['ulp'] for c_ in okc] or [0.0]), 'kernel_rel_err': 0.0, 'const_rel_err': 0.0,
+                   'pieces': [(c_['x_range'], round(c_['ulp'], 4), c_['degree']) for c_ in okc]}
+        if bad:
+            b0 = bad[0]
+            summary.update(bad_case={'path': 'small-argument kernel', 'x_range': b0['x_range'], 'u_range': b0['x_range'], 'ulp': b0['ulp'], 'kernel_ulp': b0['ulp'],
+                                     'reduction_const_ulp': 0.0, 'cody_waite_ulp': 0.0, 'why': b0.get('why', 'the odd kernel x(1 + x^2 R(x^2)) is compared with the Taylor series of the function')}, ulp=b0['ulp'])
+            out['res'].append((key, 'bad', summary))
+        elif not okc:
+            out['res'].append((key, 'mismatch', {'why': 'no small-argument kernel case found (%d paths)' % dr['paths']}))
         else:
             out['res'].append((key, 'ok', summary))
     for fn in (INV if group == 'inv' else ()):
@@ -578,7 +607,7 @@ def run_for(pid, bits, a):
                 rows.append(dict(d, obligation=key))
                 if st == 'bad' and 'bad_case' in d:
                     b = d['bad_case']
-                    r.violation(key, 'on the control path %s (|x| in [%.6g, %s]) the reduced argument ranges over %s and the kernel there is %s ulp from sin/cos (approximation %s, reduction constants %s, unfused k*c products %s ulp)%s: above the property bound %s ulp plus %s ulp rounding allowance' % (
+                    r.violation(key, 'on the control path %s (|x| in [%.6g, %s]) the reduced argument ranges over %s and the kernel there is %s ulp from the mathematical function (approximation %s, reduction constants %s, unfused k*c products %s ulp)%s: above the property bound %s ulp plus %s ulp rounding allowance' % (
                         b.get('path'), b.get('x_range', (0, 0))[0], b.get('x_range', (0, 0))[1], b.get('u_range'), b.get('ulp'), b.get('kernel_ulp'), b.get('reduction_const_ulp'), b.get('cody_waite_ulp'),
                         ((' -- ' + b['why']) if b.get('why') else '') + ((' -- witness: at x = %s (the float nearest to %d pi/2, reduced argument %.3g) the error of the reduction constants alone is %.6g ulp of the result' % (
                             b['near_multiple']['x_hex'], b['near_multiple']['n'], b['near_multiple']['reduced'], b['near_multiple']['ulp'])) if b.get('near_multiple') and b['near_multiple'].get('ulp', 0) > float(THR) else ''),
@@ -588,7 +617,7 @@ def run_for(pid, bits, a):
                     cw = (' -- of which %.3g ulp because the separately rounded product k*%.9g of the argument reduction is not exact (Cody-Waite needs a short leading constant when the multiply is not fused)' % (d['cody_waite_ulp'], d['cody_waite_site'])) if d.get('cody_waite_ulp', 0) > 1 else ''
                     r.violation(key, 'method error of the kernel is %.3g ulp on its reduced domain (approximation %.3g, reduction constants %.3g relative)%s: above the property bound %s ulp plus %s ulp rounding allowance' % (
                         d['ulp'], d['kernel_rel_err'], d['const_rel_err'], cw, float(BOUND_ULP), float(ROUNDING_ALLOWANCE_ULP)), dict(d, obligation=key))
-    want = sum(1 for c in cfgs for f in FUNCS if applicable(f[0], bits, c)) + (len(TRIG) + len(INV)) * len(cfgs)
+    want = sum(1 for c in cfgs for f in FUNCS if applicable(f[0], bits, c)) + (len(TRIG) + len(INV) + sum(1 for f_ in DIRF if bits in DIRF[f_])) * len(cfgs)
     if ncont < 30 * len(cfgs) and not r.broken:
         r.broke('tier-continuity clause evaluated only %d switch points' % ncont)
     if nob < want and not r.broken:
@@ -596,7 +625,7 @@ def run_for(pid, bits, a):
     nbad = len(set(k for (k, w, d) in r.violations))
     cov = {'explanation': 'method-error clause only: for every argument of the reduced domain, the real function denoted by the kernel (roundings erased; read off the optimised IR of the public function on %s) is within the stated number of ulps of the mathematical function, reduction constants included; rigorous rational/interval arithmetic.  The ulp bound of the property itself (accumulated rounding over all arguments) is NOT decided.' % cfgs,
            'obligations': nob, 'discharged': nob - nbad, 'evaluations': nob, 'distinct_nontrivial': nob - nbad, 'kernels': rows[:120], 'not_analysed': not_analysed[:30], 'switch_points_evaluated': ncont,
-           'functions_covered': [f[0] for f in FUNCS] + TRIG + INV, 'threshold_ulp': float(THR), 'checker_cmd': 'python3 /verif/check.py %s --tier %s' % (pid, a.tier),
+           'functions_covered': [f[0] for f in FUNCS] + TRIG + INV + ['%s (small-argument kernel)' % f_ for f_ in sorted(DIRF) if bits in DIRF[f_]], 'threshold_ulp': float(THR), 'checker_cmd': 'python3 /verif/check.py %s --tier %s' % (pid, a.tier),
            'trusted_base': ['clang 14 -O2 translation of the headers', 'lane-term normaliser (engine/terms.py, lanes.py)', 'engine/realfn.py (rounding-erased reading of lane terms)', 'engine/qi.py (interval arithmetic, series with tail bounds)',
                             'reviewed templates: the meaning of the non-arithmetic atoms (K = nearbyint(cX), S = 2^K, mantissa/exponent split)'],
            'rule': 'sup over the reduced domain of |kernel_real(u) / f(u) - 1| * 2^p <= %s ulp' % float(THR), 'headers_sha256': build.headers_hash()}
